@@ -968,6 +968,7 @@ type GuardReq struct {
 	LoopExitOK bool  // the enclosing loop may legitimately stop early before reaching the guard (break)
 	All        bool  // search the guards of every function and closure reachable from the entry, not only error-propagating calls
 	LFn        func(string) bool // when set, decides the left operand instead of the L pattern (argument-order-insensitive rows)
+	RFn        func(string) bool // likewise for the right operand
 }
 
 type guardCache struct {
@@ -1065,12 +1066,16 @@ func (ge *GuardEngine) CheckReq(c *Ctx, rule string, req GuardReq, guards []Guar
 	if req.LFn != nil {
 		matchL = req.LFn
 	}
+	matchR := rre.MatchString
+	if req.RFn != nil {
+		matchR = req.RFn
+	}
 	for _, g := range guards {
-		if matchL(g.L) && rre.MatchString(g.R) {
+		if matchL(g.L) && matchR(g.R) {
 			cands = append(cands, cand{g, g.Op})
-		} else if req.R != "" && matchL(g.R) && rre.MatchString(g.L) {
+		} else if req.R != "" && matchL(g.R) && matchR(g.L) {
 			cands = append(cands, cand{g, flipOp[g.Op]})
-		} else if req.LFn != nil {
+		} else if req.LFn != nil || req.RFn != nil {
 			continue
 		} else if len(ge.pv.expansions) > 0 {
 			// the operands may sit behind a small extracted helper: retry with its body in place of the call
